@@ -1,5 +1,5 @@
 """C16 — Exactly the active, annotated, default-reject policy statements are managed (structural part)."""
-from vlib import facts as F, thir as T, xmlgrammar as X
+from vlib import facts as F, thir as T, xmlgrammar as X, absint as A
 from vlib.report import loc_of
 from . import readers as R
 from .c03 import READ_CAND, AGENT
@@ -23,155 +23,224 @@ def run(ctx):
     chk.assumptions += ["quick-xml: Attribute::unescape_value resolves entities; read_text does not (raw slice)"]
     t = fx.thir_body(READ_CAND)
     chk.analysed(t["def"])
-    body = T.user_body(t)
-    r1(chk, fx, t, body)
-    r2(chk, fx, t, body)
-    r3(chk, fx, t, body)
+    paths = A.Interp(fx, crates=(AGENT,), max_paths=6000).explore(READ_CAND)
+    chk.extra["paths_explored"] = len(paths)
+    chk.floor("C16 paths of Maybe<Candidate>::read_xml", len(paths), 20)
+    r1(chk, fx, t, paths)
+    r2(chk, fx, t, paths)
+    r3(chk, fx, t, paths)
     r4(chk, fx)
 
 
-def attr_match(body):
-    ms = [m for m in T.find(body, "Match") if X.ntext(m["scrut"]).startswith("NsReader::resolve_attribute(")]
-    if len(ms) != 1:
-        raise F.AnchorLost("Maybe<Candidate>::read_xml: match on reader.resolve_attribute(..) not found")
-    return ms[0]
+# ---------------------------------------------------------------------------------------------------------------------------------
+# helpers over explored paths.  A path is one run through the function with every undecided branch resolved one way; `assume` holds what
+# was assumed: keys are canonical texts of the compared values, so "the attribute is jcmd:active" shows as a true comparison mentioning
+# 'active' (whether the source compares with ==, matches a byte-string pattern, or does either inside a helper).
+# ---------------------------------------------------------------------------------------------------------------------------------
+def _forms(needle):
+    w = needle.strip("'\"")
+    return (needle,) if w == needle else ("'%s'" % w, 'b"%s"' % w, '"%s"' % w)
 
 
-def r1(chk, fx, t, body):
-    m = attr_match(body)
+def holds_true(p, needle):
+    return any(any(f in k for f in _forms(needle)) and v is True for k, v in p.assume.items())
+
+
+def decided(p, needle):
+    return any(any(f in k for f in _forms(needle)) and isinstance(v, bool) for k, v in p.assume.items())
+
+
+def called(p, suffix):
+    return bool(p.calls(suffix))
+
+
+def is_attr_iteration(p):
+    return called(p, "resolve_attribute") and not called(p, "read_resolved_event")
+
+
+def is_event_iteration(p):
+    return called(p, "read_resolved_event")
+
+
+def ret_is_none(p):
+    return p.ret is not None and A.vstr(p.ret) == "Ok(Maybe(None))"
+
+
+def ret_is_err(p):
+    return p.ret is not None and A.is_res(p.ret) and p.ret[2] == "Err"
+
+
+def jcmd(p):
+    return holds_true(p, "yang.juniper.net/junos/jcmd") or holds_true(p, "JCMD")
+
+
+def r1(chk, fx, t, paths):
     fn = "<Maybe<Candidate>>::read_xml"
-    active, comment, other = None, None, []
-    for a in m["arms"]:
-        g = X.ntext(a["guard"]) if a.get("guard") is not None else ""
-        p = T.pat_str(a["pat"])
-        if 'b"active"' in g:
-            active = a
-        elif 'b"comment"' in g:
-            comment = a
-        else:
-            other.append(a)
-    chk.instance("C16/R1", "attribute scan has an `active` arm and a `comment` arm", t["def"], loc_of(m.get("sp")), holds=active is not None and comment is not None,
-                 key="C16/R1 %s attribute-arms" % fn)
-    if active is None or comment is None:
-        return
-    for nm, a in (("active", active), ("comment", comment)):
-        p = T.pat_str(a["pat"])
-        chk.instance("C16/R1", "%s arm resolves the attribute namespace against JCMD (%s)" % (nm, p), t["def"], loc_of(a.get("sp")),
-                     holds="ResolveResult::Bound(fetch::JCMD)" in p or "Bound(JCMD)" in p, key="C16/R1 %s %s-namespace" % (fn, nm))
-        g = X.ntext(a["guard"])
-        chk.instance("C16/R1", "%s arm's guard does not depend on earlier attributes (guard: %s)" % (nm, g[:80]), t["def"], loc_of(a.get("sp")),
-                     holds="maybe_filter_expr" not in g and "name" in g, key="C16/R1 %s %s-guard-reads-loop-state" % (fn, nm))
-    ga = X.ntext(active["guard"])
-    chk.instance("C16/R1", "a statement is skipped only for jcmd:active == \"false\" (unescaped value)", t["def"], loc_of(active.get("sp")),
-                 holds='PartialEq::eq(Attribute::unescape_value(attr)?,"false")' in ga, key="C16/R1 %s active-condition" % fn, detail=ga[:160])
-    ab = X.ntext(active["body"])
-    rets = T.find(active["body"], "Return")
-    ok = len(rets) == 1 and X.ntext(rets[0]["value"]) == "Result::Ok(Maybe(Option::None))" and "maybe_filter_expr" not in ab
-    chk.instance("C16/R1", "active=\"false\" returns Maybe(None) immediately, whatever was seen before", t["def"], loc_of(active.get("sp")), holds=ok,
-                 key="C16/R1 %s active-arm-effect" % fn)
-    chk.instance("C16/R1", "the skipped statement's content is consumed (read_to_end)", t["def"], loc_of(active.get("sp")), holds="NsReader::read_to_end(" in ab,
-                 key="C16/R1 %s active-arm-consumes" % fn)
-    cb = comment["body"]
-    assigns = [x for x in T.find(cb, "Assign") if T.peel(x["lhs"]).get("name") == "maybe_filter_expr"]
-    ok = len(assigns) == 1 and not T.find(cb, "Return") and not T.find(cb, "Break")
-    chk.instance("C16/R1", "comment arm only assigns the expression (no return / break)", t["def"], loc_of(comment.get("sp")), holds=ok,
+    att = [p for p in paths if is_attr_iteration(p)]
+    chk.floor("C16/R1 attribute-scan paths", len(att), 6)
+    inactive = [p for p in att if jcmd(p) and holds_true(p, "'active'") and holds_true(p, "'false'")]
+    comment = [p for p in att if jcmd(p) and holds_true(p, "'comment'") and not (holds_true(p, "'active'"))]
+    chk.instance("C16/R1", "attribute scan distinguishes jcmd:active=\"false\" (%d paths) and jcmd:comment (%d paths)" % (len(inactive), len(comment)), t["def"],
+                 loc_of(t.get("sp")), holds=bool(inactive) and bool(comment), key="C16/R1 %s attribute-arms" % fn)
+    # namespace: nothing is decided about the attribute's name on a path where the namespace was not resolved to JCMD
+    loose = [p for p in att if (decided(p, "'active'") or decided(p, "'comment'")) and not jcmd(p)]
+    for nm in ("active", "comment"):
+        chk.instance("C16/R1", "%s arm resolves the attribute namespace against JCMD" % nm, t["def"], loc_of(t.get("sp")),
+                     holds=not [p for p in loose if decided(p, "'%s'" % nm)], key="C16/R1 %s %s-namespace" % (fn, nm))
+    # order independence: no decision inside the scan reads what earlier attributes left behind
+    stateful = [p for p in att if any("«loop:" in k for k in p.assume)]
+    for nm in ("active", "comment"):
+        chk.instance("C16/R1", "%s arm's condition does not depend on earlier attributes" % nm, t["def"], loc_of(t.get("sp")),
+                     holds=not [p for p in stateful if decided(p, "'%s'" % nm)] and not (nm == "active" and [p for p in stateful if not decided(p, "'comment'")]),
+                     key="C16/R1 %s %s-guard-reads-loop-state" % (fn, nm))
+    # inactive: Maybe(None) at once (or the I/O error of skipping the content), content consumed, the expression seen so far is not consulted
+    bad = [p for p in inactive if not (p.end == "return" and (ret_is_none(p) or ret_is_err(p)))]
+    chk.instance("C16/R1", "a statement is skipped only for jcmd:active == \"false\" (unescaped value)", t["def"], loc_of(t.get("sp")),
+                 holds=all(called(p, "Attribute::unescape_value") for p in inactive) and
+                 not [p for p in att if p.end == "return" and ret_is_none(p) and not (holds_true(p, "'active'") and holds_true(p, "'false'"))],
+                 key="C16/R1 %s active-condition" % fn)
+    chk.instance("C16/R1", "active=\"false\" returns Maybe(None) immediately, whatever was seen before", t["def"], loc_of(t.get("sp")), holds=bool(inactive) and not bad
+                 and not any(p.assigns() for p in inactive), key="C16/R1 %s active-arm-effect" % fn,
+                 detail=None if not bad else "on a path with jcmd:active=\"false\" the scan goes on (%s): a later jcmd:comment then selects the inactive statement" % bad[0].end)
+    chk.instance("C16/R1", "the skipped statement's content is consumed (read_to_end)", t["def"], loc_of(t.get("sp")),
+                 holds=bool(inactive) and all(called(p, "read_to_end") for p in inactive if p.end == "return"), key="C16/R1 %s active-arm-consumes" % fn)
+    # comment: only assigns the expression
+    bad = [p for p in comment if p.end == "return" and not ret_is_err(p)] + [p for p in comment if len({a[1] for a in p.assigns()}) > 1]
+    chk.instance("C16/R1", "comment arm only assigns the expression (no return / break)", t["def"], loc_of(t.get("sp")),
+                 holds=any(p.assigns() for p in comment) and not bad and all(p.end in ("iter-end", "return") for p in comment),
                  key="C16/R1 %s comment-arm-effect" % fn)
-    for a in other:
-        ok = X.ntext(a["body"]) in ("continue", "{continue}", "{}", "()")
-        chk.instance("C16/R1", "other attributes (%s) are ignored" % T.pat_str(a["pat"]), t["def"], loc_of(a.get("sp")), holds=ok,
-                     key="C16/R1 %s other-attribute-arm" % fn)
-    txt = X.ntext(body)
+    others = [p for p in att if not holds_true(p, "'active'") and not holds_true(p, "'comment'")]
+    bad = [p for p in others if p.assigns() or (p.end == "return" and not ret_is_err(p))]
+    chk.instance("C16/R1", "other attributes are ignored (%d paths)" % len(others), t["def"], loc_of(t.get("sp")), holds=bool(others) and not bad,
+                 key="C16/R1 %s other-attribute-arm" % fn)
+    wc = [c for p in paths for c in p.trace if c[0] == "call" and T.short(c[1], 2) == "Attributes::with_checks"]
+    vals = set()
+    for p in paths:
+        for k in p.assume:
+            if "Attributes::with_checks(" in k:
+                vals.add("with_checks(BytesStart::attributes(«param:start»), false)" in k)
     chk.instance("C16/R1", "duplicate attributes are tolerated: attributes().with_checks(false)", t["def"], loc_of(t.get("sp")),
-                 holds="Attributes::with_checks(BytesStart::attributes(start),false)" in txt, key="C16/R1 %s with_checks" % fn)
+                 holds=bool(vals) and all(vals), key="C16/R1 %s with_checks" % fn)
     jc = fx.thir_body(AGENT + "::policies::fetch::JCMD")
     chk.instance("C16/R1", "JCMD = http://yang.juniper.net/junos/jcmd", jc["def"], loc_of(jc.get("sp")),
                  holds="http://yang.juniper.net/junos/jcmd" in T.expr_str(jc["body"]), key="C16/R1 JCMD value")
 
 
-def r2(chk, fx, t, body):
+def selected(p):
+    return p.ret is not None and A.mentions(p.ret, lambda x: x[0] == "adt" and x[1].endswith("policies::Candidate"))
+
+
+def r2(chk, fx, t, paths):
     fn = "<Maybe<Candidate>>::read_xml"
-    cands = [a for a in T.find(body, "Adt") if a["adt"].endswith("policies::Candidate")]
-    chk.floor("C16/R2 Candidate construction sites", len(cands), 1)
-    # let-else on maybe_filter_expr
-    le = [s for s in T.walk(body) if s.get("k") == "LetStmt" and s.get("else") is not None and X.ntext(s["init"]) == "maybe_filter_expr"]
-    ok = len(le) == 1 and T.pat_str(le[0]["pat"]).startswith("Option::Some(") and "returnResult::Ok(Maybe(Option::None))" in X.ntext(le[0]["else"])
-    chk.instance("C16/R2", "a statement without a parseable bgpfu-fltr annotation yields Maybe(None) (let-else)", t["def"],
-                 loc_of(le[0].get("sp")) if le else None, holds=ok, key="C16/R2 %s annotation-required" % fn)
-    # Candidate only under `if reject_policy`
-    ifs = [i for i in T.find(body, "If") if X.ntext(i["cond"]) == "reject_policy"]
-    inside = []
-    for i in ifs:
-        inside += [a for a in T.find(i["then"], "Adt") if a["adt"].endswith("policies::Candidate")]
-    chk.instance("C16/R2", "Candidate{..} is built only under `if reject_policy`", t["def"], loc_of(ifs[0].get("sp")) if ifs else None,
-                 holds=bool(cands) and len(inside) == len(cands), key="C16/R2 %s candidate-without-reject" % fn)
-    for i in ifs:
-        th = X.ntext(i["then"])
-        chk.instance("C16/R2", "a selected statement must have a name (MissingElement otherwise)", t["def"], loc_of(i.get("sp")),
-                     holds='Option::ok_or(name,ReadError::MissingElement{msg_type:"policy-statement",element:"name"})?' in th or
-                     'Option::ok_or(name,Read::MissingElement{msg_type:"policy-statement",element:"name"})?' in th, key="C16/R2 %s name-required" % fn)
-        el = X.ntext(i.get("else") or {})
-        chk.instance("C16/R2", "without the default reject action the statement is not selected", t["def"], loc_of(i.get("sp")),
-                     holds="Result::Ok(Maybe(Option::None))" in el and "Candidate" not in el, key="C16/R2 %s else-branch" % fn)
-    # reject_policy set only in the <then>/<reject/> arm
-    assigns = [x for x in T.find(body, "Assign") if T.peel(x["lhs"]).get("name") == "reject_policy"]
-    loops = [lp for lp in R.reader_loops(fx) if lp.fn == t["def"]]
-    then_loop = [lp for lp in loops if lp.parent_arm is not None and lp.parent_arm.name == "then"]
-    ok = len(assigns) == 1 and X.ntext(assigns[0]["rhs"]) == "true" and len(then_loop) == 1
-    if ok:
-        arms = [a for a in then_loop[0].arms if a.name == "reject"]
-        ok = len(arms) == 1 and "reject_policy=true" in arms[0].body_text() and arms[0].ns_checked() is not None
-    chk.instance("C16/R2", "reject_policy becomes true only for <then><reject/> in the Junos namespace", t["def"], None, holds=ok,
+    sel = [p for p in paths if selected(p)]
+    chk.floor("C16/R2 Candidate construction sites", len(sel), 1)
+    # what a selected statement had to satisfy — read off the assumptions of the selecting paths
+    expr_some = all(any(k.startswith("variant:«loop:") and "filter_expr" in k and v == "Some" for k, v in p.assume.items()) for p in sel)
+    none_when_missing = [p for p in paths if any(k.startswith("notvariant:«loop:") and "filter_expr" in k for k in p.assume) or
+                         any(k.startswith("variant:«loop:") and "filter_expr" in k and v == "None" for k, v in p.assume.items())]
+    chk.instance("C16/R2", "a statement without a parseable bgpfu-fltr annotation yields Maybe(None)", t["def"], loc_of(t.get("sp")),
+                 holds=expr_some and bool(none_when_missing) and all(ret_is_none(p) or ret_is_err(p) for p in none_when_missing),
+                 key="C16/R2 %s annotation-required" % fn)
+    rej = all(any("reject" in k and v is True for k, v in p.assume.items() if k.startswith("«loop:")) for p in sel)
+    chk.instance("C16/R2", "Candidate{..} is built only when the default action seen was reject", t["def"], loc_of(t.get("sp")), holds=rej,
+                 key="C16/R2 %s candidate-without-reject" % fn)
+    named = all(any(k.startswith("variant:«loop:name") and v == "Some" for k, v in p.assume.items()) for p in sel)
+    noname = [p for p in paths if any(k.startswith("variant:«loop:name") and v == "None" for k, v in p.assume.items()) and
+              any("reject" in k and v is True for k, v in p.assume.items() if k.startswith("«loop:")) and p.after_loop_with("read_resolved_event")]
+    chk.instance("C16/R2", "a selected statement must have a name (MissingElement otherwise)", t["def"], loc_of(t.get("sp")),
+                 holds=named and bool(noname) and all(ret_is_err(p) and "MissingElement" in A.vstr(p.ret) for p in noname), key="C16/R2 %s name-required" % fn)
+    norej = [p for p in paths if any("reject" in k and v is False for k, v in p.assume.items() if k.startswith("«loop:")) and p.after_loop_with("read_resolved_event")]
+    chk.instance("C16/R2", "without the default reject action the statement is not selected", t["def"], loc_of(t.get("sp")),
+                 holds=bool(norej) and not any(selected(p) for p in norej) and any(ret_is_none(p) for p in norej), key="C16/R2 %s else-branch" % fn)
+    # reject flag: set only for <then> .. <reject/> in the Junos namespace
+    setters = [p for p in paths if any(a[1].startswith("reject") and a[2] == ("lit", True) for a in p.assigns())]
+    ok = bool(setters) and all(holds_true(p, "'then'") and holds_true(p, "'reject'") and sum(1 for k, v in p.assume.items() if "xml.juniper.net/xnm" in k and v is True) >= 2
+                               for p in setters)
+    chk.instance("C16/R2", "the reject flag becomes true only for <then><reject/> in the Junos namespace", t["def"], None, holds=ok,
                  key="C16/R2 %s reject-flag" % fn)
-    # other content -> error (catch-all arms return Err), in the body loop and the then loop
-    for lp in loops:
-        ca = [a for a in lp.arms if a.catch_all]
-        ok = len(ca) == 1 and "returnResult::Err(" in ca[0].body_text() and "UnexpectedXmlEvent" in ca[0].body_text() \
-            and not R.lenient_arms(lp) and not R.repeated_names(lp)
-        chk.instance("C16/R2", "%s: any other content is an error (statement never selected)" % lp.label(), t["def"], loc_of(lp.sp), holds=ok,
-                     key="C16/R2 %s catch-all" % lp.label())
-        elems = sorted(n for n in lp.element_names())
-        want = ["name", "then"] if lp.parent_arm is None else ["reject"]
-        chk.instance("C16/R2", "%s accepts exactly the elements %s" % (lp.label(), elems), t["def"], loc_of(lp.sp), holds=elems == want,
-                     key="C16/R2 %s accepted-elements %s" % (lp.label(), elems))
-    chk.floor("C16/R2 candidate reader loops", len(loops), 2)
+    # any other content is an error: an iteration of an event loop that neither assigns, nor breaks, nor fails has skipped something — only comments may be skipped
+    ev = [p for p in paths if is_event_iteration(p)]
+    quiet = [p for p in ev if p.end == "iter-end" and not p.assigns() and not holds_true(p, "'then'")]
+    bad = [p for p in quiet if not any(v == "Comment" for k, v in p.assume.items() if k.startswith("variant:"))]
+    chk.instance("C16/R2", "%s: any other content is an error (statement never selected) — %d skipping paths, all comments" % (fn, len(quiet)), t["def"],
+                 loc_of(t.get("sp")), holds=bool(quiet) and not bad, key="C16/R2 %s catch-all" % fn)
+    names = set()
+    for p in ev:
+        for k, v in p.assume.items():
+            if v is True and "local_name" in k and "PartialEq::eq" in k:
+                names.add(k.rsplit(", ", 1)[-1].strip("')"))
+            if v is True and k.startswith("eq:") and "local_name" in k:
+                names.add(k.rsplit(":", 1)[-1].strip('b"'))
+    chk.instance("C16/R2", "the statement reader accepts exactly the elements name, then (and reject inside then): %s" % sorted(names), t["def"], loc_of(t.get("sp")),
+                 holds=names == {"name", "then", "reject"}, key="C16/R2 %s accepted-elements %s" % (fn, sorted(names)))
 
 
-def r3(chk, fx, t, body):
+def is_iteration_end(p):
+    return p.end == "iter-end"
+
+
+def call_chain(v):
+    """Names of the calls a value is derived through, outermost first (following first arguments and payload bases)."""
+    out = []
+    while isinstance(v, tuple):
+        if v[0] == "term":
+            out.append(T.short(v[1], 2))
+            v = v[2][0] if v[2] else None
+        elif v[0] in ("payload", "field", "await"):
+            v = v[1]
+        elif v[0] == "adt" and v[3]:
+            out.append(v[2])
+            v = v[3][0][1]
+        else:
+            break
+    return out, v
+
+
+def r3(chk, fx, t, paths):
     fn = "<Maybe<Candidate>>::read_xml"
-    m = attr_match(body)
-    comment = [a for a in m["arms"] if a.get("guard") is not None and 'b"comment"' in X.ntext(a["guard"])]
-    if not comment:
-        return
-    cb = X.ntext(comment[0]["body"])
-    import re
-    chain_re = re.compile(r'^\{?letattr_value=Attribute::unescape_value\(attr\)\?;letraw_expr=str::strip_prefix\(str::trim\(str::trim_matches\((Deref::deref\()?attr_value\)?,(array|slice)::as_slice\(\[[^\]]*\]\)\)\),"bgpfu-fltr:"\);match')
-    chars = sorted(n["v"] for n in T.walk(comment[0]["body"]) if n.get("k") == "Lit" and n.get("lk") == "char")
-    chain = alt = None
-    chk.instance("C16/R3", "expression = unescape_value -> trim_matches(['/','*']) -> trim -> strip_prefix(\"bgpfu-fltr:\")", t["def"],
-                 loc_of(comment[0].get("sp")), holds=bool(chain_re.match(cb)) and chars == ["*", "/"] and cb.count("strip_prefix") == 1,
-                 key="C16/R3 %s expression-chain" % fn, detail=cb[:220])
-    cl = " ".join(X.ntext(T.user_body(tt)) for n2, tt in fx.thir.items() if n2.startswith(t["def"] + "::{closure") and (tt.get("sp") or {}).get("m") is None)
-    chk.instance("C16/R3", "the remainder is parsed as MpFilterExpr unchanged: (raw, raw.parse())", t["def"], loc_of(comment[0].get("sp")),
-                 holds="(raw,str::parse(raw))" in cl, key="C16/R3 %s expression-parse" % fn)
-    cadt = [a for a in T.find(body, "Adt") if a["adt"].endswith("policies::Candidate")]
-    ok = bool(cadt) and all(X.ntext(f["expr"]) == "filter_expr" for a in cadt for f in a["fields"] if f["name"] == "filter_expr")
-    chk.instance("C16/R3", "Candidate.filter_expr is the parsed annotation", t["def"], None, holds=ok, key="C16/R3 %s filter_expr-origin" % fn)
-    # names: unescaped
+    want = ["str::parse", "str::strip_prefix", "str::trim", "str::trim_matches", "Attribute::unescape_value"]
+    setters = [(p, a) for p in paths for a in p.assigns() if "filter_expr" in a[1] or "expr" in a[1]]
+    chk.floor("C16/R3 expression assignments", len(setters), 1)
+    ok, chars, prefix, detail = True, set(), set(), None
+    for p, a in setters:
+        ch, root = call_chain(a[2])
+        ch = [c for c in ch if c not in ("Some", "Ok", "array::as_slice", "slice::as_slice", "Deref::deref")]
+        # ... applied to the attribute's value: below unescape_value there is only the attribute itself
+        cut = ch.index("Attribute::unescape_value") + 1 if "Attribute::unescape_value" in ch else len(ch)
+        if ch[:cut] != want or any(c.startswith("str::") or "String" in c for c in ch[cut:]):
+            ok, detail = False, " <- ".join(ch)
+        for x in A.walk_value(a[2]):
+            if x[0] == "term" and T.short(x[1], 2) == "str::trim_matches":
+                chars |= {y[1] for y in A.walk_value(x[2][1]) if y[0] == "lit"}
+            if x[0] == "term" and T.short(x[1], 2) == "str::strip_prefix":
+                prefix |= {y[1] for y in A.walk_value(x[2][1]) if y[0] == "lit"}
+    chk.instance("C16/R3", "expression = unescape_value -> trim_matches(['/','*']) -> trim -> strip_prefix(\"bgpfu-fltr:\") -> parse", t["def"], loc_of(t.get("sp")),
+                 holds=ok and chars == {"/", "*"} and prefix == {"bgpfu-fltr:"}, key="C16/R3 %s expression-chain" % fn,
+                 detail=detail or "chars %s prefix %s" % (sorted(chars), sorted(prefix)))
+    chk.instance("C16/R3", "the remainder is parsed as MpFilterExpr unchanged, and only a successful parse is kept", t["def"], loc_of(t.get("sp")),
+                 holds=ok and all(any(k.startswith("variant:str::parse(") and v == "Ok" for k, v in p.assume.items()) for p, a in setters),
+                 key="C16/R3 %s expression-parse" % fn)
+    sel = [p for p in paths if selected(p)]
+    good = True
+    for p in sel:
+        c = [x for x in A.walk_value(p.ret) if x[0] == "adt" and x[1].endswith("policies::Candidate")]
+        fe = A.fields_of(c[0]).get("filter_expr") if c else None
+        good = good and fe is not None and fe[0] == "payload" and "filter_expr" in A.vstr(fe[1]) or (good and fe is not None and "expr" in A.vstr(fe))
+    chk.instance("C16/R3", "Candidate.filter_expr is the parsed annotation", t["def"], None, holds=bool(sel) and bool(good), key="C16/R3 %s filter_expr-origin" % fn)
+    # names: read_text -> trim -> unescape -> Name, for both statement readers
     n = 0
-    for r in R.text_uses(fx):
-        if "policies::Name::new" in " ".join(s[0] for s in r["all_sinks"]) or True:
-            name_sinks = [s for s in r["unescaped"] if s[0].endswith("Name::new")]
-            b = fx.mir[r["fn"]]
-            if not r["fn"].startswith("<" + AGENT + "::policies::fetch::Maybe<"):
-                continue
-            uses_name = [x for x in b.calls() if x.is_fn("policies::Name::new")]
-            t_all = b.forward_taint([r["call"].dest["l"]], through_call=lambda x: x.is_fn(*R.PRESERVING) or x.is_fn("escape::unescape", "str::<impl str>::trim"))
-            if not name_sinks and not any(F.op_base(a) in t_all for x in uses_name for a in x.args):
-                continue
+    for which in ("Candidate", "Installed"):
+        rn = "<" + AGENT + "::policies::fetch::Maybe<" + AGENT + "::policies::" + which + "> as netconf::message::ReadXml>::read_xml"
+        ps = paths if which == "Candidate" else A.Interp(fx, crates=(AGENT,), max_paths=6000).explore(rn)
+        ns = [(p, a) for p in ps for a in p.assigns("name")]
+        for p, a in ns[:1]:
             n += 1
-            chk.instance("C16/R3", "%s: the policy name is unescaped before use (read_text returns escaped text)" % R.short_fn(r["fn"]), r["fn"],
-                         r["call"].loc(), holds=not name_sinks, key="C16/R3 %s name-not-unescaped" % R.short_fn(r["fn"]),
-                         detail="a policy named 'a&b' is read as 'a&amp;b' and written back as a different policy" if name_sinks else None)
+            ch, root = call_chain(a[2])
+            unesc = "escape::unescape" in ch and "NsReader::read_text" in ch and ch.index("escape::unescape") < ch.index("NsReader::read_text")
+            short = "<Maybe<%s>>::read_xml" % which
+            chk.instance("C16/R3", "%s: the policy name is unescaped before use (read_text returns escaped text): %s" % (short, " <- ".join(ch)), rn,
+                         loc_of(a[3]), holds=unesc, key="C16/R3 %s name-not-unescaped" % short,
+                         detail="a policy named 'a&b' is read as 'a&amp;b' and written back as a different policy" if not unesc else None)
     chk.floor("C16/R3 policy-name read sites", n, 2)
 
 
